@@ -336,4 +336,85 @@ CLAIMS = {
                 "document is accepted.",
         "note": _TB,
     },
+    "C11": {
+        "level": "other",
+        "technique": "writer-set = copy-set rule over discovered container "
+                     "fields + push/pop pairing over start_/end_ methods + "
+                     "decision-table cross-check of derivation, prefix, "
+                     "datatype inheritance, component and base-schema "
+                     "handling",
+        "text": "Decides the copying, pairing and once-only facts schema "
+                "composition rests on: every container _add_child writes is "
+                "propagated by deriveSectionType and createDerivedSchema "
+                "(plus type table and component registry); wildcard-key "
+                "defaults are recomputed on a private copy under the new key "
+                "type; an extended base contributes key type and datatype "
+                "only, explicit attribute > base > default, an extender is "
+                "not registered as implementer; prefix push/pop pairing and "
+                "composition with the top of the prefix stack; components "
+                "are registered before parsing and parsed only once; base "
+                "schemas are parsed into the extending schema with "
+                "references joined against its URL.  Does not decide the "
+                "behavioural equivalence with the written-out expansion.",
+        "note": _TB,
+    },
+    "C12": {
+        "level": "other",
+        "technique": "who-may-call and who-may-write rules + decision-table "
+                     "cross-check of slot search, type gate, %import and "
+                     "component-source resolution + ownership analysis of "
+                     "load-phase mutator calls",
+        "text": "Decides that implementers are registered at exactly one "
+                "site, for the type being defined, under a successful "
+                "abstract lookup and never for an extender; that an abstract "
+                "slot admits exactly a looked-up implementer and an abstract "
+                "type named directly is refused; that %import works on a "
+                "private per-load derived schema created on the first "
+                "import, is idempotent, and refuses names that are not "
+                "importable packages; that each public load call builds a "
+                "new loader whose schema field only the constructor and "
+                "importSchemaComponent write; that no load-phase mutator "
+                "call has a receiver shared with the application schema "
+                "(one known finding: F8).  Does not decide acceptance of "
+                "concrete texts.",
+        "note": _TB,
+    },
+    "C13": {
+        "level": "other",
+        "technique": "ownership / who-may-write analysis: mutator methods "
+                     "discovered from bodies, load-phase reachability with "
+                     "SAX callback edges, receiver provenance by value-"
+                     "origin analysis; copy-returning accessors; memo and "
+                     "process-wide-state rules",
+        "text": "Decides schema reusability as an ownership property: every "
+                "call of a (transitive) mutator method of a schema class "
+                "reachable while a configuration is loaded has a fresh or "
+                "builder-private receiver (one known finding: F8, the shared "
+                "AbstractType); accessors of schema containers return "
+                "copies; the conversion/schema caches store only cache[k] = "
+                "f(k) after success; slot tables are created per matcher; no "
+                "load-phase function writes a module global, class attribute "
+                "or mutable default; the derived schema copies into its own "
+                "containers.  Does not decide equality of outcomes across "
+                "histories (it follows from the absence of writers, which is "
+                "what is checked).",
+        "note": _TB,
+    },
+    "C15": {
+        "level": "other",
+        "technique": "borrowed language / decision-table rules + raw-key "
+                     "taint rule + frame rule on the effects of a key line",
+        "text": "Decides the code facts each layout rewrite relies on: "
+                "exactly blank and '#' lines are skipped and every line is "
+                "stripped; section types, names, defined names are "
+                "lower-cased by the parser and references by the "
+                "substituter; the key as written reaches only the key-type "
+                "call and messages (base and overriding matcher); both "
+                "spellings of an empty section finish the section through "
+                "the same helper under the same handlers; a key line writes "
+                "only the matched child's slot and no parser field, so lines "
+                "of different keys commute.  Does not decide the metamorphic "
+                "relations themselves.",
+        "note": _TB,
+    },
 }
